@@ -761,6 +761,14 @@ pub fn run(tier: Tier, seed: u64) -> i32 {
             let mut r = FmtReq::default_with(0);
             r.fat = Some(f);
             variants.push((format!("hook_sweep_forced_fat{}", f), r));
+            // forced widths on large sectors: volumes of up to 8 / 16 TiB, where the sizing heuristics work on 64-bit
+            // byte counts that no longer fit 32 bits
+            for bps in [2048u16, 4096] {
+                let mut r = FmtReq::default_with(0);
+                r.fat = Some(f);
+                r.bps = bps;
+                variants.push((format!("hook_sweep_forced_fat{}_{}_byte_sectors", f, bps), r));
+            }
         }
         let mut r = FmtReq::default_with(0);
         r.bpc = Some(4096);
